@@ -116,11 +116,69 @@ def classify(gtoks, sc):
     return "resume-blocked-although-messages-exist"
 
 
+ENDED_TAIL = "ended-session-tail-not-served"
+
+
+def _received(tok):
+    out = []
+    if tok.startswith("r=") and not tok.startswith("r=-"):
+        for m in tok[2:].split("!")[0].split(","):
+            mm = re.match(r"(\d+)\.(\d+)/(.*)$", m)
+            if mm:
+                out.append((int(mm.group(1)), int(mm.group(2)), "" if mm.group(3) == "-" else mm.group(3)))
+    return out
+
+
+def ended_tail(sc, toks):
+    """the open finding `ended-session-tail-not-served`, and nothing else: the client's session was
+    ended (handler-level scenario), what the client received is a PREFIX of its filtered stream
+    (nothing duplicated, reordered or skipped), everything missing lies at or before the batch of the
+    message that ended the session, and the client either (a) was behind by at least one batch
+    addressed to it when the session ended and still got the whole batch that was in flight, or
+    (b) cut the connection itself after the session had ended and every later request was refused (404).
+    A client that was caught up, kept its stream open and kept reading is owed the final batch."""
+    end = sc.get("end_event")
+    if end is None or len(toks) != len(sc["events"]) + 1:
+        return False
+    if any("!timeout" in t or "panic" in t or "deadlock" in t for t in toks):
+        return False
+    exp = [(i, r, t) for (_, i, r, t) in expected_stream(sc)]
+    final_id = sc["stream"][sum(1 for e in sc["events"][:end + 1] if e[0] == "a") - 1][0]
+    got_all, got_before = [], []
+    for k, t in enumerate(toks[:-1]):
+        rec = _received(t)
+        got_all += rec
+        if k < end:
+            got_before += rec
+    if got_all != exp[:len(got_all)]:
+        return False
+    missing = exp[len(got_all):]
+    if not missing or any(m[0] > final_id for m in missing):
+        return False
+    owed_before = [m for m in exp if m[0] < final_id]
+    after = list(zip(sc["events"][end + 1:], toks[end + 1:-1]))
+    cut_off = any(e[0] == "x" for e, _ in after)
+    refused = all(t == "c=http404" for e, t in after if e[0] == "c")
+    if not refused:
+        return False
+    if cut_off:
+        return True
+    if len(got_before) < len(owed_before):
+        inflight = exp[len(got_before)][0]
+        return all(m in got_all for m in exp if m[0] == inflight)
+    return False
+
+
 def monitor(sc, gline):
     if gline is None or not gline.startswith("res "):
         return ("driver-output-unparsable", "no result line for the scenario")
     toks = gline.split(" ")[1:]
     want, last = reference(sc)
+    if ended_tail(sc, toks):
+        exp = expected_stream(sc)
+        n = sum(len(_received(t)) for t in toks[:-1])
+        return (ENDED_TAIL, "the client's session was ended while %d message(s) addressed to it were still unread; the handler stopped after the batch in flight / "
+                            "the resume was refused, and %s were never served" % (len(exp) - n, ",".join("%d.%d" % (m[1], m[2]) for m in exp[n:][:6])))
     if len(toks) != len(want) + 1:
         return (classify(toks, sc), "result line has %d tokens, scenario has %d steps: %s" % (len(toks), len(want) + 1, gline))
     for k, w in enumerate(want):
@@ -377,6 +435,193 @@ def build_restore_cases(specs):
     return cases, None, info
 
 
+# ------------------------------------------------------------------ handler-level scenarios (real handleGetMessages)
+GM_NICKS = {1: "alice", 2: "bob", 3: "carol"}
+
+
+def gen_gm(rng):
+    """IRC traffic of three sessions applied in FSM order while session 1 reads its stream through
+    the real GET handler: reads of k messages, aborts, resumes with lastseen, and an end of the
+    client's session (QUIT / ping-timeout DeleteSession / KILL by an operator) while the stream is
+    open - the batch of that very message must still be delivered."""
+    steps = []
+
+    def m(s, line):
+        steps.append(["m", s, line])
+    for s in (1, 2, 3):
+        m(s, "NICK " + GM_NICKS[s]); m(s, "USER x 0 * :x"); m(s, "JOIN #c")
+    avail = 6            # lower bound of messages owed to the client (welcome burst, joins)
+    is_open = False
+    oper = False
+    nickb = "bob"
+
+    def traffic():
+        nonlocal avail, nickb
+        k = rng.random()
+        if k < 0.45:
+            m(rng.choice([2, 3]), "PRIVMSG #c :%s" % rng.choice(["hi", "fnord", "x y"])); avail += 1
+        elif k < 0.6:
+            m(rng.choice([2, 3]), "PRIVMSG alice :psst"); avail += 1
+        elif k < 0.7:
+            m(1, "PRIVMSG #c :mine")
+        elif k < 0.8:
+            nickb = "bob%d" % rng.randint(1, 9); m(2, "NICK " + nickb); avail += 1
+        elif k < 0.9:
+            m(3, "TOPIC #c :%s" % rng.choice(["t1", "t2"])); avail += 1
+        else:
+            m(1, "WHO #c"); avail += 2
+    for _ in range(rng.randint(4, 14)):
+        k = rng.random()
+        if k < 0.5:
+            traffic()
+        elif k < 0.62:
+            steps.append(["o"]); is_open = True
+        elif k < 0.8 and is_open:
+            if avail >= 1 and rng.random() < 0.6:
+                kk = rng.randint(1, min(avail, 4))
+                steps.append(["r", kk]); avail -= kk
+            else:
+                steps.append(["r", 0]); avail = 0
+        elif k < 0.9 and is_open:
+            steps.append(["x"]); is_open = False
+    end = rng.random()
+    if end < 0.8:
+        j = rng.random()
+        if j >= 0.7:
+            m(2, "OPER root secret")
+        if not is_open:
+            steps.append(["o"]); is_open = True
+        # the client is caught up when the message that ends its session is applied (a client that
+        # lags behind at that moment loses the rest by design: the handler aborts once the session
+        # is gone), and the handler is idle: nothing is applied between the sync and the end
+        steps.append(["r", 0])
+        if j < 0.4:
+            m(1, "QUIT :%s" % rng.choice(["bye", "gone"]))
+        elif j < 0.7:
+            steps.append(["D", 1, "Ping timeout"])
+        else:
+            m(2, "KILL alice :go away")
+        steps.append(["f"])
+    else:
+        if not is_open:
+            steps.append(["o"])
+        steps.append(["r", 0])
+    return {"nsess": 3, "steps": steps}
+
+
+def gen_gm_ended(rng, cls):
+    """the open finding's scenario classes.  (a) the client is behind when its session is ended:
+    it has read k messages of the welcome burst (the handler is blocked inside that batch), or it is
+    caught up and two more batches for it arrive which it does not read; then QUIT / DeleteSession /
+    KILL; it reads on until the handler ends the request.  (b) the client is caught up, its session
+    is ended, it cuts the connection before reading the final batch and resumes with lastseen."""
+    steps = []
+
+    def m(s, line):
+        steps.append(["m", s, line])
+    for s in (1, 2, 3):
+        m(s, "NICK " + GM_NICKS[s]); m(s, "USER x 0 * :x"); m(s, "JOIN #c")
+    j = rng.random()
+    if j >= 0.7:
+        m(2, "OPER root secret")
+
+    def end():
+        if j < 0.4:
+            m(1, "QUIT :bye")
+        elif j < 0.7:
+            steps.append(["D", 1, "Ping timeout"])
+        else:
+            m(2, "KILL alice :go away")
+    steps.append(["o"])
+    if cls == "a" and rng.random() < 0.5:
+        steps.append(["r", rng.randint(1, 4)])          # inside the first batch addressed to the client
+        if rng.random() < 0.5:
+            m(2, "PRIVMSG #c :more")
+        end()
+        steps.append(["f"])
+    elif cls == "a":
+        steps.append(["r", 0])
+        m(2, "PRIVMSG #c :one"); m(3, "PRIVMSG alice :two")
+        end()
+        steps.append(["f"])
+    else:
+        steps.append(["r", 0])
+        end()
+        steps.append(["x"]); steps.append(["o"]); steps.append(["f"])
+    return {"nsess": 3, "steps": steps, "class": "ended-" + cls}
+
+
+def gm_line(spec):
+    toks = ["gm", str(spec["nsess"])]
+    for st in spec["steps"]:
+        if st[0] in ("m", "D"):
+            toks.append("%s:%d:%s" % (st[0], st[1], st[2].encode().hex()))
+        elif st[0] == "r":
+            toks.append("r:%d" % st[1])
+        else:
+            toks.append(st[0])
+    return " ".join(toks)
+
+
+def gm_to_case(spec, gl):
+    """translate the handler-level run into a resume scenario over the stream the real ircserver
+    produced: (scenario for the Out/Resume model and the reference, result line in `res` form)"""
+    f = gl.split(" ")
+    if f[0] != "gm" or not f[-1].startswith("S=") or len(f) != len(spec["steps"]) + 3:
+        return None, gl[:300]
+    stream_by_id = {b[0]: b for b in parse_dump(f[-1][2:])}
+    stream, events, toks = [], [], []
+
+    def add(i):
+        stream.append(stream_by_id[i]); events.append(["a", 0]); toks.append("a=ok")
+    end_event = None
+    for st, t in zip(spec["steps"], f[1:-2]):
+        val = t.split("=", 1)[1]
+        if st[0] in ("m", "D"):
+            if val != "-":
+                add(int(val))
+                ends = (st[0] == "D" and st[1] == 1) or (st[0] == "m" and (
+                    (st[1] == 1 and st[2].startswith("QUIT")) or st[2].startswith("KILL alice")))
+                if ends:
+                    end_event = len(events) - 1
+        elif st[0] == "o":
+            events.append(["c", 0]); toks.append("c=ok" if val == "ok" else "c=" + val)
+        elif st[0] == "x":
+            events.append(["x"]); toks.append("x=ok")
+        elif st[0] == "r" and st[1] > 0:
+            events.append(["r", st[1]]); toks.append("r=" + val)
+        elif st[0] == "r":
+            mm = re.match(r"(.*)@(\d+)(!\w+)?$", val)
+            add(int(mm.group(2)))
+            events.append(["r", 0]); toks.append("r=" + mm.group(1) + (mm.group(3) or ""))
+        elif st[0] == "f":
+            events.append(["r", 0]); toks.append("r=" + val)
+    sc = {"sess": 1, "ls0": [1, 0], "stream": stream, "events": events, "gm": spec,
+          "note": "handler level: real handleGetMessages over ircserver + outputstream"}
+    if end_event is not None:
+        sc["end_event"] = end_event
+    return sc, " ".join(["res"] + toks + [f[-2]])
+
+
+def run_gm(specs, tag="gm"):
+    wd = vlib.workdir()
+    inp, outp = os.path.join(wd, tag + ".in"), os.path.join(wd, tag + ".out")
+    open(inp, "w").write("\n".join(gm_line(s) for s in specs) + "\n")
+    if os.path.exists(outp):
+        os.remove(outp)
+    rc, out = vlib.go_test(PKG, {vlib.REPO + "/internal/api/zz_verif_getmsg_test.go": vlib.HGO + "/api/zz_verif_getmsg_test.go"},
+                           "^TestVerifGetMsg$", {"VERIF_IN": inp, "VERIF_OUT": outp}, timeout=900)
+    if rc != 0 or not os.path.exists(outp):
+        return None, out
+    res = []
+    for spec, gl in zip(specs, open(outp).read().split("\n")[:-1]):
+        sc, g = gm_to_case(spec, gl)
+        if sc is None:
+            return None, "handler-level driver: unusable result line: " + g
+        res.append((sc, g))
+    return res, out
+
+
 # ------------------------------------------------------------------ running both sides
 def overlay():
     return {vlib.REPO + "/internal/api/zz_verif_res_test.go": vlib.HGO + "/api/zz_verif_res_test.go"}
@@ -418,7 +663,7 @@ def shrink(sc, failing, max_rounds=60):
         return out
 
     cur = sc
-    if "fsm" in sc or len(sc["stream"]) > 300:
+    if "fsm" in sc or "gm" in sc or len(sc["stream"]) > 300:
         return sc           # restore scenarios (streams from the real FSM) and cache-trimming scenarios are kept whole
     pre = [dict(cur, events=cur["events"][:n]) for n in range(1, len(cur["events"]))]
     for x, g in zip(pre, run(pre)):
@@ -491,6 +736,7 @@ def run(ck, replay):
     ck.cov["trusted_base"] += [
         "Go driver harness/go/api/zz_verif_res_test.go: runs the real getMessages goroutine; plays the per-session filter of handleGetMessages (one line, checked by a source scan) and the client; detects 'parked in GetNext' through sync.Cond's notifyList counters",
         "python reference of the session's filtered stream used by the monitor; regex scan of getmessages.go",
+        "handler-level driver harness/go/api/zz_verif_getmsg_test.go: the real DispatchPublic/handleGetMessages over a real IRCServer and OutputStream, messages applied in FSM order (ProcessMessage, Add, MaybeDeleteSession), single-node in-memory raft leader; synchronisation by marker batches, no timing assumptions on a correct tree; the oracle is the Out/Resume model run on the stream the ircserver produced",
         "stage-1 driver harness/go/main/zz_verif_resfsm_test.go (real FSM.Apply/Snapshot/Persist/Restore in package main; its output-stream dumps are loaded into the nodes of the resume scenarios); the reference of a restore scenario is the stream of the node that applied the log live",
         "modelled, not verified: OutputStream.GetNext at its linearisation point (justified by C08_getnext_safe), the unbuffered channel hand-over, net/http streaming and JSON encoding of each message, context cancellation",
         "NOT modelled: Go scheduler fairness - 'nothing missing' is proved at quiescence (handler blocked in GetNext with nothing in flight)"]
@@ -532,8 +778,21 @@ def run(ck, replay):
                                                   "output": rerr[-3000:], "obligation": "correspondence apidrv (res, restore)"}, concrete=False)
             return
         cases += rcases
+    # handler-level scenarios: the scenario (stream) only exists after the real ircserver has run
+    gm_specs = [c["gm"] for c in cases if "gm" in c]
+    if not replay:
+        gm_specs += [gen_gm(ck.rng) for _ in range(120 if ck.tier == "quick" else 1500)]
+        gm_specs += [gen_gm_ended(ck.rng, "a" if k % 3 else "b") for k in range(24 if ck.tier == "quick" else 200)]
+    cases = [c for c in cases if "gm" not in c]
+    gm_res = []
+    if gm_specs:
+        gm_res, gmout = run_gm(gm_specs)
+        if gm_res is None:
+            ck.violation("tie-broken:go-driver", {"what": "the handler-level driver (real handleGetMessages) did not build/run against the current tree",
+                                                  "output": gmout[-3000:], "obligation": "correspondence apidrv (gm)"}, concrete=False)
+            return
     lines = [case_line(c) for c in cases]
-    glines, goout = run_go(lines)
+    glines, goout = run_go(lines) if lines else ([], "")
     if glines is None:
         ck.violation("tie-broken:go-driver", {"what": "Go correspondence driver did not build/run against the current tree",
                                               "output": goout[-3000:], "obligation": "correspondence apidrv (res)"}, concrete=False)
@@ -546,6 +805,8 @@ def run(ck, replay):
     if not getattr(ck, "model_ok", False):
         ck.violation("tie-broken:model", {"what": "model driver could not be built", "output": ck.model_out[-3000:]}, concrete=False)
         return
+    for sc, g in gm_res:
+        cases.append(sc); lines.append(case_line(sc)); glines.append(g)
     mlines = vlib.run_model("\n".join(lines) + "\n")
     if ck.tier == "thorough":
         sample = [l for l in lines if len(l) < 500][:100]
@@ -606,10 +867,20 @@ def run(ck, replay):
                       "node A applies them live, node B is rebuilt from a protobuf snapshot (Snapshot+Persist, fresh FSM, Restore) and the client resumes on B after every "
                       "message from just before the replayed window to the end (reference = stream of A); every scenario ends with a node that applies everything and a client that reads until the handler is parked; "
                       "non-trivial = messages were received on at least two connections; distinct by case text")
-    ck.cov["input_distribution"] = dict(stats, corpus_cases=ncorpus, restore=restore_info)
+    gm_ends = {}
+    for sc, g in gm_res:
+        e = [st for st in sc["gm"]["steps"] if st[0] in ("m", "D")][-1]
+        kind = "none" if sc["gm"]["steps"][-1][0] != "f" else ("DeleteSession" if e[0] == "D" else e[2].split(" ")[0])
+        gm_ends[kind] = gm_ends.get(kind, 0) + 1
+    ck.cov["input_distribution"] = dict(stats, corpus_cases=ncorpus, restore=restore_info,
+                                        handler_level={"scenarios": len(gm_res), "session_ended_by": gm_ends})
     ck.cov["samples"] = [{"case": lines[i][:1500], "impl": glines[i][:1500], "model": mlines[i][:1500]} for i in
                          ([0] if ncorpus else []) + [ncorpus, len(cases) - 1] if i < len(lines)][:3]
 
+    # failures explained by an open known finding neither hide other failures nor a broken tie
+    known = {k["sig"] for k in vlib.known_findings(ck.prop)}
+    explained = {i for i, _ in monfail}
+    mism = [i for i in mism if i not in explained]
     reported = set()
     for i, (sig, text) in monfail:
         if sig in reported:
@@ -619,7 +890,11 @@ def run(ck, replay):
         if not replay:
             small = shrink(cases[i], lambda x, g, sig=sig: (monitor(x, g) or ("",))[0] == sig)
         sl = case_line(small)
-        sg, _ = run_go([sl], "final")
+        if "gm" in small:
+            rr, _ = run_gm([small["gm"]], "final")
+            sg = [rr[0][1]] if rr else None
+        else:
+            sg, _ = run_go([sl], "final")
         want, _ = reference(small)
         again = monitor(small, sg[0] if sg else None)
         if again and again[0] == sig:
@@ -628,8 +903,9 @@ def run(ck, replay):
                            "model_output": (vlib.run_model(sl + "\n") or [None])[0],
                            "expected_by_property": [w for w in want if w], "original_case_line": lines[i],
                            "how_to_replay": "bin/check C04 --replay <this file>"}, concrete=True)
-        if len(reported) >= 3:
+        if len(reported - known) >= 3:
             break
+    monfail = [x for x in monfail if x[1][0] not in known]
     if mism and not monfail and not replay:
         # search for a property-violating scenario before reporting the bare disagreement
         extra = [gen_scenario(ck.rng, lagfocus=True) for _ in range(800)]
